@@ -700,12 +700,17 @@ impl Printable for Stmt {
 				// TODO: keep end_comments, child.inline_trivia somehow, force multiple locals formatting in case of presence?
 				} else {
 					p!(out,str("local") >i nl);
-					for bind in binds {
+					let last = binds.len() - 1;
+					for (i, bind) in binds.into_iter().enumerate() {
 						if bind.should_start_with_newline {
 							p!(out, nl);
 						}
 						format_comments(&bind.before_trivia, CommentLocation::AboveItem, out);
-						p!(out, {bind.value} str(","));
+						p!(out, {bind.value});
+						// Jsonnet grammar has no trailing comma in local binds
+						if i != last {
+							p!(out, str(","));
+						}
 						format_comments(&bind.inline_trivia, CommentLocation::ItemInline, out);
 						p!(out, nl);
 					}
